@@ -159,6 +159,7 @@ def run(ctx):
         'isspent': (lambda s: s.isspent(t.txid, 0), lambda i: True, lambda r: 'T' if r is True else 'fabricated:%r' % (r,)),
         'estimatefee': (lambda s: s.estimatefee(5), lambda i: 20000 + i, lambda r: r - 20000 if isinstance(r, int) and 20000 <= r < 20010 else 'normalised:%r' % (r,)),
     }
+    f36_listed = any(f['id'] == 'F36' for f in ctx.known)
     for qname, (call, answer, who) in queries.items():
         for outs in itertools.product(['ok', 'empty', 'raise'], repeat=2):
             for maxe in (1, 4):
@@ -191,6 +192,10 @@ def run(ctx):
                             except ServiceError:
                                 got = 'error'
                             # a warm answer must equal what was stored; a cold cache must not answer
+                            if qname == 'getbalance' and got == 'value fabricated:0' and f36_listed:
+                                ctx.known_hit('F36', {'op': 'query getbalance warm', 'outcomes': list(outs), 'max_errors': maxe,
+                                                      'observed': got, 'expected': 'error'})
+                                continue
                             if got.startswith('value') and (first is None or got != 'value %s' % first):
                                 ctx.violation('cache served an answer that no provider gave', {'op': 'query %s warm' % qname, 'outcomes': outs,
                                                                                               'first': first, 'observed': got})
@@ -206,6 +211,12 @@ def run(ctx):
                         ctx.count('query-raised-%s:%s' % (type(e).__name__, qname))
                     if qname == 'isspent' and expected.startswith('value'):
                         expected = 'value T'          # a boolean answer cannot be tagged with its provider
+                    if (qname == 'getbalance' and got == 'value fabricated:0' and expected in ('false', 'error')
+                            and f36_listed):
+                        # listed finding F36: a failed provider run is reported as balance 0
+                        ctx.known_hit('F36', {'op': 'query getbalance', 'outcomes': list(outs), 'max_errors': maxe,
+                                              'observed': got, 'expected': expected})
+                        continue
                     if got != expected and not (expected == 'false' and got == 'error'):
                         ctx.violation('query result is not the first responding provider\'s answer (or a failure)',
                                       {'op': 'query %s' % qname, 'outcomes': outs, 'max_errors': maxe, 'observed': got, 'expected': expected})
